@@ -38,6 +38,7 @@ import (
 	"net/url"
 	"strings"
 	"sync"
+	"sync/atomic"
 	"time"
 
 	"git.torproject.org/pluggable-transports/snowflake.git/v2/common/event"
@@ -341,9 +342,19 @@ func (sf *SnowflakeProxy) datachannelHandler(conn *webRTCConn, remoteAddr net.Ad
 type dataChannelHandlerWithRelayURL struct {
 	RelayURL string
 	sf       *SnowflakeProxy
+	// claimed is set to 1 by whichever happens first: the data channel
+	// handler starting, or runSession giving up on the session. Only that
+	// side returns the session's token.
+	claimed *int32
 }
 
 func (d dataChannelHandlerWithRelayURL) datachannelHandler(conn *webRTCConn, remoteAddr net.Addr) {
+	if d.claimed != nil && !atomic.CompareAndSwapInt32(d.claimed, 0, 1) {
+		// runSession has already timed this session out and returned its
+		// token; the data channel opened too late.
+		conn.Close()
+		return
+	}
 	d.sf.datachannelHandler(conn, remoteAddr, d.RelayURL)
 }
 
@@ -516,7 +527,8 @@ func (sf *SnowflakeProxy) runSession(sid string) {
 		return
 	}
 	dataChan := make(chan struct{})
-	dataChannelAdaptor := dataChannelHandlerWithRelayURL{RelayURL: relayURL, sf: sf}
+	var claimed int32
+	dataChannelAdaptor := dataChannelHandlerWithRelayURL{RelayURL: relayURL, sf: sf, claimed: &claimed}
 	pc, err := sf.makePeerConnectionFromOffer(offer, config, dataChan, dataChannelAdaptor.datachannelHandler)
 	if err != nil {
 		log.Printf("error making WebRTC connection: %s", err)
@@ -543,7 +555,12 @@ func (sf *SnowflakeProxy) runSession(sid string) {
 		if err := pc.Close(); err != nil {
 			log.Printf("error calling pc.Close: %v", err)
 		}
-		tokens.ret()
+		// The data channel may open at this very moment, in which case the
+		// handler owns the token and returns it when it ends; returning it
+		// here as well would release the slot twice.
+		if atomic.CompareAndSwapInt32(&claimed, 0, 1) {
+			tokens.ret()
+		}
 	}
 }
 
